@@ -109,6 +109,7 @@ type Frame struct {
 	isRoot   bool
 	retCnt   int
 	deferRun bool
+	curRecv  Value // receiver of the interface call being executed (for at-anchors)
 }
 
 type State struct {
